@@ -98,6 +98,7 @@ func runC12(r *harness.Run) {
 	runPinned(r, "C12")
 	pinnedGoCallByParam(r)
 	overflowHistory(r)
+	overflowHandlerWork(r)
 	r.Extra["states"] = atomic.LoadInt64(&c.states)
 	r.Extra["transitions"] = atomic.LoadInt64(&c.transitions)
 	r.Extra["traces_validated_against_impl"] = atomic.LoadInt64(&c.validated)
